@@ -18,7 +18,7 @@
                                                 fld_*       (FromBytes / FromWideBytes)
      algebra/impl/fields/sqrt.go, pow.go        ts_sqrt                                     *)
 From Coq Require Import ZArith List Bool Lia.
-Require Import V.base.Fld V.model.CurveParams V.model.Curve V.gen.CodecConsts.
+Require Import V.base.Fld V.model.CurveParams V.model.Curve.
 Import ListNotations.
 Local Open Scope Z_scope.
 
@@ -438,21 +438,87 @@ Definition fld25519_from_wide (p : Z) (bs : list Z) : option Z :=
 
 (* ---- instances --------------------------------------------------------------------------- *)
 
-(* Tonelli–Shanks constants and coordinate sizes come from gen/CodecConsts.v, regenerated from the
-   field sources on every run *)
+(* p - 1 = 2^e * m, m odd: the progenitor exponent is (m-1)/2 *)
+Definition ts_progenitor (p : Z) (e : nat) : Z := ((p - 1) / 2 ^ Z.of_nat e - 1) / 2.
+
+(* The Tonelli–Shanks constants (2-adicity, progenitor exponent, root of unity) and the coordinate
+   sizes below are proved equal to the constants regenerated from the field sources
+   (gen/CodecConsts.v) in proofs/PointCodec_proofs.v (codec_consts_tie). *)
 Definition k256_codec : wcodec :=
-  mk_wcodec k256_params k256_fp_e k256_fp_progenitor k256_fp_rou k256_fp_bytes.
+  mk_wcodec k256_params 1 (ts_progenitor (wp_p k256_params) 1) (wp_p k256_params - 1) 32.
 Definition p256_codec : wcodec :=
-  mk_wcodec p256_params p256_fp_e p256_fp_progenitor p256_fp_rou p256_fp_bytes.
+  mk_wcodec p256_params 1 (ts_progenitor (wp_p p256_params) 1) (wp_p p256_params - 1) 32.
 Definition pallas_codec : wcodec :=
-  mk_wcodec pallas_params pallas_fp_e pallas_fp_progenitor pallas_fp_rou pallas_fp_bytes.
+  mk_wcodec pallas_params 32 (ts_progenitor (wp_p pallas_params) 32)
+    0x2bce74deac30ebda362120830561f81aea322bf2b7bb7584bdad6fabd87ea32f 32.
 Definition vesta_codec : wcodec :=
-  mk_wcodec vesta_params vesta_fp_e vesta_fp_progenitor vesta_fp_rou vesta_fp_bytes.
+  mk_wcodec vesta_params 32 (ts_progenitor (wp_p vesta_params) 32)
+    0x2de6a9b8746d3f589e5c4dfd492ae26e9bb97ea3c106f049a70e2c1102b6d05f 32.
 Definition blsg1_codec : wcodec :=
-  mk_wcodec bls12381g1_params bls12381_fp_e bls12381_fp_progenitor bls12381_fp_rou bls12381_fp_bytes.
+  mk_wcodec bls12381g1_params 1 (ts_progenitor bls12381_p 1) (bls12381_p - 1) 48.
 Definition ed25519_codec : ecodec :=
-  mk_ecodec ed25519_params ed25519_fp_e ed25519_fp_progenitor ed25519_fp_rou ed25519_fp_bytes.
+  mk_ecodec ed25519_params 2 (ts_progenitor (ep_p ed25519_params) 2)
+    0x2b8324804fc1df0b2b4d00993dfbd7a72f431806ad2fe478c4ee1b274a0ea0b0 32.
 Definition curve25519_c : Z := mp_c curve25519_params.
+
+
+(* The same instances once more with every constant written out inside a function body: the
+   extracted OCaml evaluates them on demand (forty 256..381-bit constants at module level exhaust
+   the OCaml compiler's stack).  proofs/PointCodec_proofs.v shows  k256_codec_f tt = k256_codec
+   etc., so these are the instances the theorems speak about. *)
+Definition k256_codec_f (_ : unit) : wcodec :=
+  let p := 0xfffffffffffffffffffffffffffffffffffffffffffffffffffffffefffffc2f in
+  mk_wcodec (mk_wparams p 0 7
+      0x79be667ef9dcbbac55a06295ce870b07029bfcdb2dce28d959f2815b16f81798
+      0x483ada7726a3c4655da4fbfc0e1108a8fd17b448a68554199c47d08ffb10d4b8
+      0xfffffffffffffffffffffffffffffffebaaedce6af48a03bbfd25e8cd0364141 1)
+    1 (ts_progenitor p 1) (p - 1) 32.
+
+Definition p256_codec_f (_ : unit) : wcodec :=
+  let p := 0xffffffff00000001000000000000000000000000ffffffffffffffffffffffff in
+  mk_wcodec (mk_wparams p 0xffffffff00000001000000000000000000000000fffffffffffffffffffffffc 0x5ac635d8aa3a93e7b3ebbd55769886bc651d06b0cc53b0f63bce3c3e27d2604b
+      0x6b17d1f2e12c4247f8bce6e563a440f277037d812deb33a0f4a13945d898c296
+      0x4fe342e2fe1a7f9b8ee7eb4a7c0f9e162bce33576b315ececbb6406837bf51f5
+      0xffffffff00000000ffffffffffffffffbce6faada7179e84f3b9cac2fc632551 1)
+    1 (ts_progenitor p 1) (p - 1) 32.
+
+Definition pallas_codec_f (_ : unit) : wcodec :=
+  let p := 0x40000000000000000000000000000000224698fc094cf91b992d30ed00000001 in
+  mk_wcodec (mk_wparams p 0 5
+      1
+      0x1b74b5a30a12937c53dfa9f06378ee548f655bd4333d477119cf7a23caed2abb
+      0x40000000000000000000000000000000224698fc0994a8dd8c46eb2100000001 1)
+    32 (ts_progenitor p 32) 0x2bce74deac30ebda362120830561f81aea322bf2b7bb7584bdad6fabd87ea32f 32.
+
+Definition vesta_codec_f (_ : unit) : wcodec :=
+  let p := 0x40000000000000000000000000000000224698fc0994a8dd8c46eb2100000001 in
+  mk_wcodec (mk_wparams p 0 5
+      1
+      0x1943666ea922ae6b13b64e3aae89754cacce3a7f298ba20c4e4389b9b0276a62
+      0x40000000000000000000000000000000224698fc094cf91b992d30ed00000001 1)
+    32 (ts_progenitor p 32) 0x2de6a9b8746d3f589e5c4dfd492ae26e9bb97ea3c106f049a70e2c1102b6d05f 32.
+
+Definition blsg1_codec_f (_ : unit) : wcodec :=
+  let p := 0x1a0111ea397fe69a4b1ba7b6434bacd764774b84f38512bf6730d2a0f6b0f6241eabfffeb153ffffb9feffffffffaaab in
+  mk_wcodec (mk_wparams p 0 4
+      0x17f1d3a73197d7942695638c4fa9ac0fc3688c4f9774b905a14e3a3f171bac586c55e83ff97a1aeffb3af00adb22c6bb
+      0x08b3f481e3aaa0f1a09e30ed741d8ae4fcf5e095d5d00af600db18cb2c04b3edd03cc744a2888ae40caa232946c5e7e1
+      0x73eda753299d7d483339d80809a1d80553bda402fffe5bfeffffffff00000001 1)
+    1 (ts_progenitor p 1) (p - 1) 48.
+
+Definition ed25519_codec_f (_ : unit) : ecodec :=
+  let p := 0x7fffffffffffffffffffffffffffffffffffffffffffffffffffffffffffffed in
+  mk_ecodec (mk_eparams p 0x7fffffffffffffffffffffffffffffffffffffffffffffffffffffffffffffec 0x52036cee2b6ffe738cc740797779e89800700a4d4141d8ab75eb4dca135978a3
+      0x216936d3cd6e53fec0a4e231fdd6dc5c692cc7609525a7b2c9562d608f25d51a
+      0x6666666666666666666666666666666666666666666666666666666666666658
+      0x1000000000000000000000000000000014def9dea2f79cd65812631a5cf5d3ed 8)
+    2 (ts_progenitor p 2) 0x2b8324804fc1df0b2b4d00993dfbd7a72f431806ad2fe478c4ee1b274a0ea0b0 32.
+
+Definition curve25519_params_f (_ : unit) : mparams :=
+  mk_mparams 0x7fffffffffffffffffffffffffffffffffffffffffffffffffffffffffffffed 486662 9
+    0x5f51e65e475f794b1fe122d388b72eb36dc2b28192839e4dd6163a5d81312c14
+    0x1000000000000000000000000000000014def9dea2f79cd65812631a5cf5d3ed 8
+    0x0f26edf460a006bbd27b08dc03fc4f7ec5a1d3d14b7d1a82cc6e04aaff457e06.
 
 (* is b a square?  (Euler) — decides whether a point with x = 0 exists *)
 Definition euler (p v : Z) : Z := zp_pow p v ((p - 1) / 2).
